@@ -2,6 +2,6 @@
 # usage: try_seed.sh <patch.diff> <PROP>...   applies the patch to /repo, runs the checks, reverts.
 P="$1"; shift
 cd /repo && git apply "$P" || { echo "cannot apply"; exit 2; }
-for id in "$@"; do (cd /verif && ./check "$id" 2>&1 | grep -E "^(VIOLATION|SUMMARY|BROKEN|KNOWN)" | cut -c1-260); done
+for id in "$@"; do (cd /verif && VERIF_NO_EVIDENCE=1 ./check "$id" 2>&1 | grep -E "^(VIOLATION|SUMMARY|BROKEN|KNOWN)" | cut -c1-260); done
 cd /repo && git apply -R "$P"
 git -C /repo status --short | head -3
